@@ -305,6 +305,6 @@ def split_printed_numbers(text):
     and its sign."""
     import re
     neg = text.startswith("-")
-    nums = [float(x) for x in re.findall(r"\d+(?:\.\d+)?(?:e[-+]?\d+)?",
-                                         text)]
+    nums = [Fraction(x) for x in re.findall(
+        r"\d+(?:\.\d+)?(?:e[-+]?\d+)?", text)]
     return neg, nums
